@@ -305,40 +305,66 @@ def selectors_and_rest(rep: Report, prog: Program) -> None:
             rep.ok("R16.4")
         else:
             rep.fail("R16.4", f"_resolve_attempt_hooks|{cs_}|{ps_}|{ce_}|{pe_}", f"_resolve_attempt_hooks yields {rv}, expected {want}", where=fi.where(), function=fi.qual)
-    # call sites
+    # the effective values, decided by value: with the selectors (and whatever helper took their place) read through,
+    # what each Retry method hands to its runner is `call-level value if it is not None else policy-level value`, for
+    # every combination of the two being None / given - for the handler, before_sleep, the sleeper and both attempt hooks
+    from ..paths import CannotEval, evaluate, truth
+
+    ROLES = (("sleep_fn", "sleep", "sleep"), ("before_sleep", "before_sleep", "before_sleep"), ("sleeper", "sleeper", "sleeper"), ("attempt_start_hook", "on_attempt_start", "on_attempt_start"), ("attempt_end_hook", "on_attempt_end", "on_attempt_end"))
+    eng = engine(prog)
+    inline0 = eng.inline
+    eng.inline = lambda f, inline0=inline0: bool(inline0 and inline0(f)) or f.qual.startswith(f"{HELPERS}:_resolve_")
     n_sites = 0
-    for cls in ("redress.policy.retry_sync:Retry", "redress.policy.retry_async:AsyncRetry"):
-        for m in ("call", "execute"):
-            mf = prog.func(f"{cls}.{m}")
-            rep.analysed(mf.qual)
-            for p in engine(prog).paths(mf)[:1]:
-                for e in p.calls(pure=None):
-                    for fn, attrname, param in (("_resolve_sleep", "sleep", "sleep"), ("_resolve_before_sleep", "before_sleep", "before_sleep"), ("_resolve_sleeper", "sleeper", "sleeper")):
-                        if e.is_repo(f":{fn}"):
+    try:
+        for cls, runner in (("redress.policy.retry_sync:Retry", "run_sync_"), ("redress.policy.retry_async:AsyncRetry", "run_async_")):
+            for m in ("call", "execute"):
+                mf = prog.func(f"{cls}.{m}")
+                rep.analysed(mf.qual)
+                mpaths = eng.paths(mf, raises=lambda ev, cfg: (), key="c16-effective")
+                for kw, param, attrname in ROLES:
+                    for cv in (None, "C"):
+                        for pv in (None, "P"):
+
+                            def leaf(t: Any, cv: Any = cv, pv: Any = pv, param: str = param, attrname: str = attrname) -> Any:
+                                if t == ("param", param):
+                                    return cv
+                                if t == attr(("param", "self"), attrname):
+                                    return pv
+                                if isinstance(t, tuple) and t and t[0] == "pure" and t[1] == "typing.cast" and len(t[2]) == 2:
+                                    return evaluate(t[2][1], leaf)
+                                raise CannotEval()
+
+                            got = set()
+                            for p in mpaths:
+                                feasible = True
+                                for a_, pol, _ in p.conds:
+                                    try:
+                                        if truth(a_, leaf) != pol:
+                                            feasible = False
+                                            break
+                                    except CannotEval:
+                                        continue
+                                if not feasible:
+                                    continue
+                                for e in p.calls():
+                                    if e.is_repo(f":{runner}{m}"):
+                                        v = e.kwargs.get(kw)
+                                        try:
+                                            got.add(evaluate(v, leaf) if v is not None else "<not passed>")
+                                        except CannotEval:
+                                            got.add(show(v))
+                            want = cv if cv is not None else pv
                             n_sites += 1
-                            rep.instance("R16.4", f"{mf.qual}|{fn}")
-                            cal = next((t.func for t in e.targets if t.func is not None), None)
-                            pn = cal.positional_params() if cal is not None else []
-                            allp = cal.param_names() if cal is not None else []
-                            roles = {"policy": f"policy_{attrname}", "call": f"call_{attrname}"}
-                            if set(roles.values()) <= set(allp):
-                                pn = [roles["policy"], roles["call"]]  # by name, whatever their order / kind (keyword-only, swapped)
-                            # by the callee's parameter names: the policy-level value and the call-level value (decided above)
-                            if len(pn) == 2 and dict(e.kwargs) == {pn[0]: attr(("param", "self"), attrname), pn[1]: ("param", param)}:
+                            rep.instance("R16.4", f"{mf.qual}|{kw}|call={cv}|policy={pv}")
+                            if got == {want}:
                                 rep.ok("R16.4")
                             else:
-                                rep.fail("R16.4", f"{mf.qual.split(':')[1]}|{fn}|args", f"{mf.qual}: {fn}({', '.join(show(a) for a in e.args)}): expected (self.{attrname}, {param})", where=mf.where(), function=mf.qual)
-                    if e.is_repo(":_resolve_attempt_hooks"):
-                        n_sites += 1
-                        rep.instance("R16.4", f"{mf.qual}|_resolve_attempt_hooks")
-                        want = {"policy_start": attr(("param", "self"), "on_attempt_start"), "policy_end": attr(("param", "self"), "on_attempt_end"), "call_start": ("param", "on_attempt_start"), "call_end": ("param", "on_attempt_end")}
-                        if e.kwargs == want and not e.args:
-                            rep.ok("R16.4")
-                        else:
-                            rep.fail("R16.4", f"{mf.qual.split(':')[1]}|_resolve_attempt_hooks|args", f"{mf.qual}: _resolve_attempt_hooks({[(k, show(v)) for k, v in e.kwargs.items()]})", where=mf.where(), function=mf.qual)
-    if n_sites < 16:
-        raise AnalysisError(f"R16.4: only {n_sites} selector call sites found (16 confirmed)")
-    rep.floor("R16.4", 12 + 16 + 16)
+                                rep.fail("R16.4", f"{mf.qual.split(':')[1]}|{kw}|call={cv}|policy={pv}", f"{mf.qual}: with the per-call `{param}` {'given' if cv else 'None'} and the policy-level `{attrname}` {'given' if pv else 'None'} the runner receives {kw}={sorted(map(str, got))}; expected the {'per-call' if cv else 'policy-level'} value", where=mf.where(), function=mf.qual)
+    finally:
+        eng.inline = inline0
+    if n_sites < 80:
+        raise AnalysisError(f"R16.4: only {n_sites} effective-value rows decided (80 expected)")
+    rep.floor("R16.4", 12 + 16 + 80)
 
     # ---- only granted retries consult the handler
     rep.rule("R16.5", "_X_sleep_action is called only from _X_failure_outcome, on the edge where decision.action is not `raise`")
